@@ -177,7 +177,7 @@ func main() {
 			var aia []string
 			var paths []string
 			for ri, b := range list {
-				p := fmt.Sprintf("%s/r%d", prefix, ri)
+				p := fmt.Sprintf("%s/Responder-%d", prefix, ri) // letter case in the path is significant
 				switch b {
 				case "refused":
 					aia = append(aia, refused)
